@@ -32,6 +32,7 @@ def case_ns(log, order, nf):
     oq, oe = order
     exact = {1: ns.lo_exact, 2: ns.nlo_exact, 3: ns.nnlo_exact, 4: ns.n3lo_exact}[oq]
     rp = (MOD, "replay_ns", {"order": list(order), "nf": nf})
+    log.register_replay("fallback:replay_ns", rp, _sampler)
 
     def run():
         a = [SR.var("a%d" % i) for i in range(3)]
@@ -76,6 +77,7 @@ def case_matrix(log, order, sector):
     oq, oe = order
     dim = 4 if sector == "singlet" else 2
     rp = (MOD, "replay_matrix", {"order": list(order), "sector": sector})
+    log.register_replay("fallback:replay_matrix", rp, _sampler)
 
     def run():
         a = [SR.var("a%d" % i) for i in range(3)]
@@ -170,6 +172,7 @@ def case_midpoint_vs_ns(log, order):
     log.encode(ns.nlo_exact, ns.nnlo_exact, ns.lo_exact)
     exact = {1: ns.lo_exact, 2: ns.nlo_exact, 3: ns.nnlo_exact}[order]
     rp = (MOD, "replay_matrix", {"order": [order, 1], "sector": "valence"})
+    log.register_replay("fallback:replay_matrix", rp, _sampler)
 
     def run():
         jetmod.set_cap(5)
